@@ -289,7 +289,7 @@ class Language(metaclass=abc.ABCMeta):
 
             return (module_name, (0, 0, 0), None)
 
-    @functools.lru_cache()
+    # Not memoised: PyDSDL types compare equal by name, version and bit length set, not by their attributes.
     def get_dependency_builder(self, for_type: pydsdl.Any) -> DependencyBuilder:
         """
         Get a dependency builder for the given type.
